@@ -36,7 +36,7 @@ ANCHORS = ['io:from_json', 'io:from_yaml', 'io:from_yaml_all', 'io:write_json', 
            'classes:PaneBase.write_json', 'classes:PaneBase.write_yaml', 'classes:PaneBase.from_json', 'classes:PaneBase.from_yaml',
            'classes:PaneBase.from_yaml_all', 'classes:PaneBase.from_jsons', 'classes:PaneBase.from_yamls']
 MIN_COUNTERS = {'quick': {'round_trips': 8000, 'paths_opened_by_pane': 2500, 'caller_streams_checked': 3000, 'yaml_all_checked': 600,
-                          'returned_strings_checked': 300, 'non_ascii_payloads': 1200, 'failed_reads_checked': 300, 'offset_streams_checked': 300, 'foreign_encoding_streams_checked': 200, 'wrapper_streams_checked': 150, 'subclass_key_documents': 100}}
+                          'returned_strings_checked': 300, 'non_ascii_payloads': 1200, 'failed_reads_checked': 300, 'offset_streams_checked': 300, 'foreign_encoding_streams_checked': 200, 'wrapper_streams_checked': 150, 'subclass_key_documents': 100, 'custom_sequence_reads': 100}}
 
 ALLOW = ('int', 'float', 'str', 'bool', 'none', 'list', 'seq', 'dict', 'tup', 'union', 'dc', 'enum', 'lit', 'fraction', 'decimal',
          'date', 'time', 'datetime', 'path', 'deque', 'sub', 'cc', 'set', 'bytes')
@@ -615,6 +615,52 @@ def run(ctx):
         del OPENED[:]
 
     drive.for_each_case(ctx, 'custom', 25, body_custom, gen=lambda c, r: Ty('int'), seconds=60)
+
+    # ---- the SAME type read several times in one process with different per-call custom= (round 11: a reader that remembers the
+    # converter of its first call per type). Every reader variant, the calls in a random order; each call must apply its own handlers.
+    def body_custom_sequence(i, rng, ty, T):
+        SC = env.m_converters.ScalarConverter
+
+        def scaled(k):
+            c = SC(int, int, f"units of 1/{k}", f"units of 1/{k}", lambda v, k=k: v * k)
+            c.ty = lambda d, k=k: d // k
+            return {int: c}
+        counter[0] += 1
+        cls = type(f"KQ{counter[0]}", (env.PaneBase,), {'__annotations__': {'n': int, 'ns': t.List[int]}, '__module__': __name__})
+        elem = rng.choice((cls, int, t.List[int], t.Dict[str, int]))
+        handlers = [('none', None, 1), ('x10', scaled(10), 10), ('x1000', scaled(1000), 1000), ('x10-again', scaled(10), 10)]
+        rng.shuffle(handlers)
+        readers = ['yaml_all', 'yaml', 'json'] + (['Cls.from_yaml_all'] if elem is cls else [])
+        for reader in readers:
+            for name, custom, k in handlers:
+                base = {'n': 3, 'ns': [1, 2]} if elem is cls else (7 if elem is int else ([4, 5] if elem is t.List[int] else {'a': 6}))
+                scale = (lambda d: {kk: scale(v) for kk, v in d.items()} if isinstance(d, dict) else ([scale(v) for v in d] if isinstance(d, list) else d * k))
+                doc = scale(base)
+                kw = {} if custom is None else {'custom': custom}
+                if reader == 'yaml_all':
+                    r = observe(env.m_io.from_yaml_all, io.StringIO(yaml.safe_dump_all([doc, doc])), elem, **kw)
+                    expect_n = 2
+                elif reader == 'Cls.from_yaml_all':
+                    r = observe(cls.from_yaml_all, io.StringIO(yaml.safe_dump_all([doc, doc])), **kw)
+                    expect_n = 2
+                elif reader == 'yaml':
+                    r = observe(env.m_io.from_yaml, io.StringIO(yaml.safe_dump(doc)), elem, **kw)
+                    expect_n = None
+                else:
+                    r = observe(env.m_io.from_json, io.StringIO(json.dumps(doc)), elem, **kw)
+                    expect_n = None
+                ref = observe(env.from_data, base, elem)
+                ctx.count('custom_sequence_reads')
+                ctx.case(('custom-sequence', reader, name, getattr(elem, '__name__', str(elem))[:12]))
+                vals = r.val if (r.kind == 'value' and expect_n) else ([r.val] if r.kind == 'value' else None)
+                ok = ref.kind == 'value' and vals is not None and (expect_n is None or len(vals) == expect_n) and all(deep_typed_eq(ref.val, v)[0] for v in vals)
+                if not ok:
+                    ctx.violation('custom-converters-honoured', 'custom_sequence', i,
+                                  {'reader': reader, 'element_type': str(elem), 'this_call_custom': name, 'order_of_calls': [h[0] for h in handlers],
+                                   'document': short(doc, 120), 'expected': ref.brief(), 'read': r.brief()}, mech=f"{reader}-custom-of-an-earlier-call")
+                    return
+
+    drive.for_each_case(ctx, 'custom_sequence', 12, body_custom_sequence, gen=lambda c, r: Ty('int'), seconds=40)
 
     # unparameterised container types as the whole type: Sequence / Mapping / list / tuple / dict / set, typing and collections.abc
     # spellings. What from_data makes of the loaded document is the same typed image the value had (a tuple for Sequence, ...).
